@@ -974,6 +974,7 @@ def replay(ctx, case):
 THEOREMS = [
     "Ebv.C05.accepts_structural", "Ebv.C05.structOk_spec", "Ebv.C05.wfInsn_imm",
     "Ebv.C05.reg_init_sound", "Ebv.C05.reg_init_sound_strict", "Ebv.C05.exit_has_r0", "Ebv.C05.accepted_pc_in_range",
+    "Ebv.C05.stack_bounds_sound", "Ebv.C05.istep_regs",
     "Ebv.C05.step_next_pc", "Ebv.C05.step_call_pc", "Ebv.C05.step_frame",
     "Ebv.C05.calc_covered", "Ebv.C05.owners_sound", "Ebv.C05.owners_check_insufficient",
 ]
@@ -1004,13 +1005,14 @@ LEVEL_TEXT = ("PARTIAL. The oracle is the Linux verifier, which is not modelled 
               "executions): for the abstract interpreter MiniV.accepts (seven verifier rules), acceptance implies forward in-range jumps that avoid "
               "second slots, well-formed LD_IMM64, EXIT last, legal shift/division/byte-swap immediates (accepts_structural), and -- against the ISA "
               "semantics Ebpf.step with arbitrary helper behaviour -- that every register an instruction reads has been written, r1-r5 being dead "
-              "after a call (reg_init_sound, exit_has_r0); for the generator model Gen (C01 fragment) every register an emitted instruction reads is "
+              "after a call (reg_init_sound, exit_has_r0), and that every load/store through a register tracked as frame pointer stays inside the 512-byte "
+              "frame (stack_bounds_sound); for the generator model Gen (C01 fragment) every register an emitted instruction reads is "
               "initially owned or written earlier (owners_sound) provided the expression's leaf registers have values, and that proviso is necessary "
               "(owners_check_insufficient). Checked on every run, not proved: the real kernel accepts every regenerated program (property oracle), "
               "MiniV accepts them too (regenerated obligations) and agrees with the kernel on mutants for the modelled rules.")
 LEVEL_NOTE = ("partial by nature: the kernel's full rule set (bounds tracking, path sensitivity, pruning, helper prototypes per program type, alignment, "
-              "complexity, version differences) is outside; rules (2)-(4),(6) of MiniV are executable and differentially tested but have no "
-              "soundness theorem against the ISA semantics; the link generator -> MiniV.accepts for whole programs (EmitAccepts) is stated, not "
+              "complexity, version differences) is outside; the initialised-bytes part of rule (2) and rules (3),(4),(6) of MiniV are executable and differentially tested but have "
+              "no soundness theorem against the ISA semantics; the link generator -> MiniV.accepts for whole programs (EmitAccepts) is stated, not "
               "proved; trusted: Lean kernel + standard axioms, hand model MiniV, kern.py; known findings: findings/C05.json")
 TECHNIQUE = "Lean 4 proof about a verifier-rule model + differential runs against the real verifier (bpf(2) in the sandbox)"
 DESIGN_REF = "§4 C05"
